@@ -278,6 +278,21 @@ Theorem C12_natplus_valid_spec : forall x,
 Proof. exact natplus_valid_spec. Qed.
 Print Assumptions C12_natplus_valid_spec.
 
+(* num.Uint: 0 <= value < modulus, at the top and for every Uint-shaped component directly below the
+   top of a generically modelled type (Paillier plaintexts, znstar elements, trapdoor keys, ...) *)
+Theorem C12_uint_valid_spec : forall x,
+  valid TUint x = true ->
+  forall v m, uint_leaf x = Some (v, m) -> be_value v < be_value m.
+Proof. exact uint_valid_spec. Qed.
+Print Assumptions C12_uint_valid_spec.
+
+Theorem C12_generic_uint_leaves_spec : forall x,
+  valid TGeneric x = true ->
+  (forall v m, uint_leaf x = Some (v, m) -> be_value v < be_value m) /\
+  (forall ps k y v m, x = Map ps -> In (k, y) ps -> uint_leaf y = Some (v, m) -> be_value v < be_value m).
+Proof. exact generic_uint_leaves_spec. Qed.
+Print Assumptions C12_generic_uint_leaves_spec.
+
 (* ---- non-vacuity: concrete instances of the hypotheses ------------------------------------- *)
 
 (* the library's encoding of the (2, {1,2,300}) threshold structure:
